@@ -94,6 +94,7 @@ def gen_doc(rng, specials=False, imports=True, resets=True):
     def related(a, b):
         return parent.get(a) == b or parent.get(b) == a or parent.get(a) == parent.get(b)
     conns = {}
+    extra_conns = []
     for i, a in enumerate(comps):
         for b in comps[i + 1:]:
             if related(a, b) and cvars[a] and cvars[b] and rng.random() < 0.5:
@@ -110,6 +111,20 @@ def gen_doc(rng, specials=False, imports=True, resets=True):
                         va['iface'] = vb['iface'] = 'public_and_private'
                         pairs.append((va['name'], vb['name'], ident(0.4)))
                 conns[(a, b)] = (pairs, ident(0.4))
+    # connections to imported components: their variables exist only as placeholders created by the parser; one placeholder
+    # may be mapped several times (from two components, or twice in one connection)
+    tops = [c for c in comps if c not in parent]
+    for ic in imp_comps:
+        if rng.random() < 0.6:
+            cands = [(c, v) for c in tops for v in cvars[c] if not v['iface'] or v['iface'] in ('public', 'public_and_private')]
+            rng.shuffle(cands)
+            used_c = {}
+            for c, v in cands[:rng.randint(1, 3)]:
+                v['iface'] = v['iface'] or 'public'
+                used_c.setdefault(c, []).append(v['name'])
+            ph = rng.choice(['pv', 'pv', 'pw'])
+            for c, names in used_c.items():
+                extra_conns.append((c, ic, [(nm, ph if rng.random() < 0.8 else 'pw') for nm in names]))
     for c in comps:
         body = []
         for v in cvars[c]:
@@ -141,6 +156,11 @@ def gen_doc(rng, specials=False, imports=True, resets=True):
         out.append('  <connection%s%s%s>' % (att('component_1', a), att('component_2', b), att('id', cid) if cid else ''))
         for x, y, mid in pairs:
             out.append('    <map_variables%s%s%s/>' % (att('variable_1', x), att('variable_2', y), att('id', mid) if mid else ''))
+        out.append('  </connection>')
+    for a, b, pairs in extra_conns:
+        out.append('  <connection%s%s>' % (att('component_1', a), att('component_2', b)))
+        for x, y in pairs:
+            out.append('    <map_variables%s%s/>' % (att('variable_1', x), att('variable_2', y)))
         out.append('  </connection>')
     kids = {}
     for c, p in parent.items():
